@@ -39,25 +39,199 @@ package impl
 //@ spec fn samplesShaped(res []service.IColPoolRes) bool = len(res) == 5 && typeis(res[0], "*service.PooledColumn[proto.ColUInt8]") && typeis(res[1], "*service.PooledColumn[proto.ColUInt64]") && typeis(res[2], "*service.PooledColumn[proto.ColInt64]") && typeis(res[3], "*service.PooledColumn[*proto.ColStr]") && typeis(res[4], "*service.PooledColumn[proto.ColFloat64]") && sType(res) != nil && sFp(res) != nil && sTs(res) != nil && sStr(res) != nil && sVal(res) != nil && sStr(res).Data != nil
 //@ spec fn samplesRows(res []service.IColPoolRes, n int) bool = len(sType(res).Data) == n && len(sFp(res).Data) == n && len(sTs(res).Data) == n && len(sStr(res).Data.Pos) == n && len(sVal(res).Data) == n
 
+//@ spec fn samplesAcq(a *SamplesAcquirer, res []service.IColPoolRes) bool = a.Type == sType(res) && a.Fingerprint == sFp(res) && a.TimestampNS == sTs(res) && a.String == sStr(res) && a.Value == sVal(res)
+//@ spec fn sTsRows(res []service.IColPoolRes, d *model.TimeSamplesData, base int, n int) bool = forall k int :: 0 <= k && k < n ==> sTs(res).Data[base + k] == d.MTimestampNS[k]
+//@ spec fn sFpRows(res []service.IColPoolRes, d *model.TimeSamplesData, base int, n int) bool = forall k int :: 0 <= k && k < n ==> sFp(res).Data[base + k] == d.MFingerprint[k]
+//@ spec fn sTypeRows(res []service.IColPoolRes, d *model.TimeSamplesData, base int, n int) bool = forall k int :: 0 <= k && k < n ==> sType(res).Data[base + k] == d.MType[k]
+//@ spec fn sValRows(res []service.IColPoolRes, d *model.TimeSamplesData, base int, n int) bool = forall k int :: 0 <= k && k < n ==> sVal(res).Data[base + k] == d.MValue[k]
+
+// Row k of the appended part is entry k of every array of the request (the
+// string column is checked for its row count only: its text lives in one shared
+// byte buffer addressed by positions, which is not followed here).
 //@ func NewSamplesInsertService$2 [C02]
 //@   requires shaped: samplesShaped(res)
+//@   requires existing-columns: !fresh(sType(res)) && !fresh(sFp(res)) && !fresh(sTs(res)) && !fresh(sStr(res)) && !fresh(sVal(res)) && !fresh(sStr(res).Data)
 //@   requires rectangular-batch: samplesRows(res, len(sFp(res).Data))
-//@   requires rectangular-request: typeis(ts, "*model.TimeSamplesData") ==> unbox(ts, "*model.TimeSamplesData") != nil && rectSamplesReq(unbox(ts, "*model.TimeSamplesData"))
+//@   requires rectangular-request: typeis(ts, "*model.TimeSamplesData") ==> unbox(ts, "*model.TimeSamplesData") != nil && !fresh(unbox(ts, "*model.TimeSamplesData")) && rectSamplesReq(unbox(ts, "*model.TimeSamplesData"))
 //@   check same-count: result2 == nil ==> result0 == len(timeSeriesData.MTimestampNS)
 //@   check rectangular: result2 == nil ==> samplesRows(res, old(len(sFp(res).Data)) + len(timeSeriesData.MTimestampNS))
+//@   check row-timestamp: result2 == nil ==> sTsRows(res, timeSeriesData, _len, len(timeSeriesData.MTimestampNS))
+//@   check row-fingerprint: result2 == nil ==> sFpRows(res, timeSeriesData, _len, len(timeSeriesData.MTimestampNS))
+//@   check row-type: result2 == nil ==> sTypeRows(res, timeSeriesData, _len, len(timeSeriesData.MTimestampNS))
+//@   check row-value: result2 == nil ==> sValRows(res, timeSeriesData, _len, len(timeSeriesData.MTimestampNS))
 //@   check same-columns: result2 == nil ==> len(result1) == 5 && result1[0] == res[0] && result1[1] == res[1] && result1[2] == res[2] && result1[3] == res[3] && result1[4] == res[4]
 //@   loop 1:
-//@     invariant len(sTs(res).Data) == _len + rangeindex + 1
-//@     modifies sTs(res).Data, elems(sTs(res).Data), allocated
+//@     invariant samplesAcq(samples, res) && len(sTs(res).Data) == _len + rangeindex + 1 && rangeindex + 1 <= len(timeSeriesData.MTimestampNS)
+//@     invariant sTsRows(res, timeSeriesData, _len, rangeindex + 1)
+//@     modifies sTs(res).Data, allocated
 //@   loop 2:
-//@     invariant len(sFp(res).Data) == _len + rangeindex + 1
-//@     modifies sFp(res).Data, elems(sFp(res).Data), allocated
+//@     invariant samplesAcq(samples, res) && len(sFp(res).Data) == _len + rangeindex + 1 && rangeindex + 1 <= len(timeSeriesData.MFingerprint)
+//@     invariant sTsRows(res, timeSeriesData, _len, len(timeSeriesData.MTimestampNS))
+//@     invariant sFpRows(res, timeSeriesData, _len, rangeindex + 1)
+//@     modifies sFp(res).Data, allocated
 //@   loop 3:
-//@     invariant len(sType(res).Data) == _len + rangeindex + 1
-//@     modifies sType(res).Data, elems(sType(res).Data), allocated
+//@     invariant samplesAcq(samples, res) && len(sType(res).Data) == _len + rangeindex + 1 && rangeindex + 1 <= len(timeSeriesData.MType)
+//@     invariant sTsRows(res, timeSeriesData, _len, len(timeSeriesData.MTimestampNS))
+//@     invariant sFpRows(res, timeSeriesData, _len, len(timeSeriesData.MTimestampNS))
+//@     invariant sTypeRows(res, timeSeriesData, _len, rangeindex + 1)
+//@     modifies sType(res).Data, allocated
 //@   loop 4:
-//@     invariant len(sVal(res).Data) == _len + rangeindex + 1
-//@     modifies sVal(res).Data, elems(sVal(res).Data), allocated
+//@     invariant samplesAcq(samples, res) && len(sVal(res).Data) == _len + rangeindex + 1 && rangeindex + 1 <= len(timeSeriesData.MValue)
+//@     invariant sTsRows(res, timeSeriesData, _len, len(timeSeriesData.MTimestampNS))
+//@     invariant sFpRows(res, timeSeriesData, _len, len(timeSeriesData.MTimestampNS))
+//@     invariant sTypeRows(res, timeSeriesData, _len, len(timeSeriesData.MTimestampNS))
+//@     invariant sValRows(res, timeSeriesData, _len, rangeindex + 1)
+//@     modifies sVal(res).Data, allocated
 //@   loop 5:
-//@     invariant len(sStr(res).Data.Pos) == _len + rangeindex + 1
-//@     modifies fields(sStr(res).Data), elems(sStr(res).Data.Pos), elems(sStr(res).Data.Buf), allocated
+//@     invariant samplesAcq(samples, res) && len(sStr(res).Data.Pos) == _len + rangeindex + 1 && rangeindex + 1 <= len(timeSeriesData.MMessage)
+//@     invariant sTsRows(res, timeSeriesData, _len, len(timeSeriesData.MTimestampNS))
+//@     invariant sFpRows(res, timeSeriesData, _len, len(timeSeriesData.MTimestampNS))
+//@     invariant sTypeRows(res, timeSeriesData, _len, len(timeSeriesData.MTimestampNS))
+//@     invariant sValRows(res, timeSeriesData, _len, len(timeSeriesData.MTimestampNS))
+//@     modifies fields(sStr(res).Data), allocated
+
+// time_series: (type, date, fingerprint, labels)
+//@ func (*TimeSeriesAcquirer).deserialize
+//@   flag inline
+//@ func (*TimeSeriesAcquirer).serialize
+//@   flag inline
+//@ func (*github.com/ClickHouse/ch-go/proto.ColDate).Append
+//@   flag inline
+//@ spec fn tType(res []service.IColPoolRes) *service.PooledColumn[proto.ColUInt8] = unbox(res[0], "*service.PooledColumn[proto.ColUInt8]")
+//@ spec fn tDate(res []service.IColPoolRes) *service.PooledColumn[proto.ColDate] = unbox(res[1], "*service.PooledColumn[proto.ColDate]")
+//@ spec fn tFp(res []service.IColPoolRes) *service.PooledColumn[proto.ColUInt64] = unbox(res[2], "*service.PooledColumn[proto.ColUInt64]")
+//@ spec fn tLabels(res []service.IColPoolRes) *service.PooledColumn[*proto.ColStr] = unbox(res[3], "*service.PooledColumn[*proto.ColStr]")
+//@ spec fn seriesShaped(res []service.IColPoolRes) bool = len(res) == 4 && typeis(res[0], "*service.PooledColumn[proto.ColUInt8]") && typeis(res[1], "*service.PooledColumn[proto.ColDate]") && typeis(res[2], "*service.PooledColumn[proto.ColUInt64]") && typeis(res[3], "*service.PooledColumn[*proto.ColStr]") && tType(res) != nil && tDate(res) != nil && tFp(res) != nil && tLabels(res) != nil && tLabels(res).Data != nil
+//@ spec fn seriesRows(res []service.IColPoolRes, n int) bool = len(tType(res).Data) == n && len(tDate(res).Data) == n && len(tFp(res).Data) == n && len(tLabels(res).Data.Pos) == n
+//@ spec fn rectSeriesReq(d *model.TimeSeriesData) bool = len(d.MDate) == len(d.MLabels) && len(d.MLabels) == len(d.MFingerprint) && len(d.MFingerprint) == len(d.MType)
+//@ spec fn seriesAcq(a *TimeSeriesAcquirer, res []service.IColPoolRes) bool = a.Type == tType(res) && a.Date == tDate(res) && a.Fingerprint == tFp(res) && a.Labels == tLabels(res)
+//@ spec fn tFpRows(res []service.IColPoolRes, d *model.TimeSeriesData, base int, n int) bool = forall k int :: 0 <= k && k < n ==> tFp(res).Data[base + k] == d.MFingerprint[k]
+//@ spec fn tTypeRows(res []service.IColPoolRes, d *model.TimeSeriesData, base int, n int) bool = forall k int :: 0 <= k && k < n ==> tType(res).Data[base + k] == d.MType[k]
+
+//@ func NewTimeSeriesInsertService$2 [C02]
+//@   requires shaped: seriesShaped(res)
+//@   requires existing-columns: !fresh(tType(res)) && !fresh(tDate(res)) && !fresh(tFp(res)) && !fresh(tLabels(res)) && !fresh(tLabels(res).Data)
+//@   requires rectangular-batch: seriesRows(res, len(tDate(res).Data))
+//@   requires rectangular-request: typeis(ts, "*model.TimeSeriesData") ==> unbox(ts, "*model.TimeSeriesData") != nil && !fresh(unbox(ts, "*model.TimeSeriesData")) && rectSeriesReq(unbox(ts, "*model.TimeSeriesData"))
+//@   check same-count: result2 == nil ==> result0 == len(timeSeriesData.MDate)
+//@   check rectangular: result2 == nil ==> seriesRows(res, old(len(tDate(res).Data)) + len(timeSeriesData.MDate))
+//@   check row-fingerprint: result2 == nil ==> tFpRows(res, timeSeriesData, _len, len(timeSeriesData.MDate))
+//@   check row-type: result2 == nil ==> tTypeRows(res, timeSeriesData, _len, len(timeSeriesData.MDate))
+//@   check same-columns: result2 == nil ==> len(result1) == 4 && result1[0] == res[0] && result1[1] == res[1] && result1[2] == res[2] && result1[3] == res[3]
+//@   loop 1:
+//@     invariant seriesAcq(acquirer, res) && len(tDate(res).Data) == _len + rangeindex + 1 && len(tLabels(res).Data.Pos) == _len + rangeindex + 1 && rangeindex + 1 <= len(timeSeriesData.MDate)
+//@     modifies tDate(res).Data, fields(tLabels(res).Data), allocated
+//@   loop 2:
+//@     invariant seriesAcq(acquirer, res) && len(tFp(res).Data) == _len + rangeindex + 1 && rangeindex + 1 <= len(timeSeriesData.MFingerprint)
+//@     invariant tFpRows(res, timeSeriesData, _len, rangeindex + 1)
+//@     modifies tFp(res).Data, allocated
+//@   loop 3:
+//@     invariant seriesAcq(acquirer, res) && len(tType(res).Data) == _len + rangeindex + 1 && rangeindex + 1 <= len(timeSeriesData.MType)
+//@     invariant tFpRows(res, timeSeriesData, _len, len(timeSeriesData.MDate))
+//@     invariant tTypeRows(res, timeSeriesData, _len, rangeindex + 1)
+//@     modifies tType(res).Data, allocated
+
+// metrics (samples table, numeric rows only): (type, fingerprint, timestamp_ns, value)
+//@ func (*MetricsAcquirer).deserialize
+//@   flag inline
+//@ spec fn mType(res []service.IColPoolRes) *service.PooledColumn[proto.ColUInt8] = unbox(res[0], "*service.PooledColumn[proto.ColUInt8]")
+//@ spec fn mFp(res []service.IColPoolRes) *service.PooledColumn[proto.ColUInt64] = unbox(res[1], "*service.PooledColumn[proto.ColUInt64]")
+//@ spec fn mTs(res []service.IColPoolRes) *service.PooledColumn[proto.ColInt64] = unbox(res[2], "*service.PooledColumn[proto.ColInt64]")
+//@ spec fn mVal(res []service.IColPoolRes) *service.PooledColumn[proto.ColFloat64] = unbox(res[3], "*service.PooledColumn[proto.ColFloat64]")
+//@ spec fn metricsShaped(res []service.IColPoolRes) bool = len(res) == 4 && typeis(res[0], "*service.PooledColumn[proto.ColUInt8]") && typeis(res[1], "*service.PooledColumn[proto.ColUInt64]") && typeis(res[2], "*service.PooledColumn[proto.ColInt64]") && typeis(res[3], "*service.PooledColumn[proto.ColFloat64]") && mType(res) != nil && mFp(res) != nil && mTs(res) != nil && mVal(res) != nil
+//@ spec fn metricsRows(res []service.IColPoolRes, n int) bool = len(mType(res).Data) == n && len(mFp(res).Data) == n && len(mTs(res).Data) == n && len(mVal(res).Data) == n
+//@ spec fn rectMetricsReq(d *model.TimeSamplesData) bool = len(d.MFingerprint) == len(d.MTimestampNS) && len(d.MTimestampNS) == len(d.MValue) && len(d.MValue) == len(d.MType)
+//@ spec fn metricsAcq(a *MetricsAcquirer, res []service.IColPoolRes) bool = a.Type == mType(res) && a.Fingerprint == mFp(res) && a.TimestampNS == mTs(res) && a.Value == mVal(res)
+//@ spec fn mTypeRows(res []service.IColPoolRes, d *model.TimeSamplesData, base int, n int) bool = forall k int :: 0 <= k && k < n ==> mType(res).Data[base + k] == d.MType[k]
+//@ spec fn mTsRows(res []service.IColPoolRes, d *model.TimeSamplesData, base int, n int) bool = forall k int :: 0 <= k && k < n ==> mTs(res).Data[base + k] == d.MTimestampNS[k]
+//@ spec fn mFpRows(res []service.IColPoolRes, d *model.TimeSamplesData, base int, n int) bool = forall k int :: 0 <= k && k < n ==> mFp(res).Data[base + k] == d.MFingerprint[k]
+//@ spec fn mValRows(res []service.IColPoolRes, d *model.TimeSamplesData, base int, n int) bool = forall k int :: 0 <= k && k < n ==> mVal(res).Data[base + k] == d.MValue[k]
+
+//@ func NewMetricsInsertService$2 [C02]
+//@   requires shaped: metricsShaped(res)
+//@   requires existing-columns: !fresh(mType(res)) && !fresh(mFp(res)) && !fresh(mTs(res)) && !fresh(mVal(res))
+//@   requires rectangular-batch: metricsRows(res, len(mFp(res).Data))
+//@   requires rectangular-request: typeis(ts, "*model.TimeSamplesData") ==> unbox(ts, "*model.TimeSamplesData") != nil && !fresh(unbox(ts, "*model.TimeSamplesData")) && rectMetricsReq(unbox(ts, "*model.TimeSamplesData"))
+//@   check same-count: result2 == nil ==> result0 == len(metricData.MTimestampNS)
+//@   check rectangular: result2 == nil ==> metricsRows(res, old(len(mFp(res).Data)) + len(metricData.MTimestampNS))
+//@   check row-type: result2 == nil ==> mTypeRows(res, metricData, _len, len(metricData.MTimestampNS))
+//@   check row-timestamp: result2 == nil ==> mTsRows(res, metricData, _len, len(metricData.MTimestampNS))
+//@   check row-fingerprint: result2 == nil ==> mFpRows(res, metricData, _len, len(metricData.MTimestampNS))
+//@   check row-value: result2 == nil ==> mValRows(res, metricData, _len, len(metricData.MTimestampNS))
+//@   check same-columns: result2 == nil ==> len(result1) == 4 && result1[0] == res[0] && result1[1] == res[1] && result1[2] == res[2] && result1[3] == res[3]
+//@   loop 1:
+//@     invariant metricsAcq(metrics, res) && len(mType(res).Data) == _len + rangeindex + 1 && rangeindex + 1 <= len(metricData.MType)
+//@     invariant mTypeRows(res, metricData, _len, rangeindex + 1)
+//@     modifies mType(res).Data, allocated
+//@   loop 2:
+//@     invariant metricsAcq(metrics, res) && len(mTs(res).Data) == _len + rangeindex + 1 && rangeindex + 1 <= len(metricData.MTimestampNS)
+//@     invariant mTypeRows(res, metricData, _len, len(metricData.MTimestampNS))
+//@     invariant mTsRows(res, metricData, _len, rangeindex + 1)
+//@     modifies mTs(res).Data, allocated
+//@   loop 3:
+//@     invariant metricsAcq(metrics, res) && len(mFp(res).Data) == _len + rangeindex + 1 && rangeindex + 1 <= len(metricData.MFingerprint)
+//@     invariant mTypeRows(res, metricData, _len, len(metricData.MTimestampNS))
+//@     invariant mTsRows(res, metricData, _len, len(metricData.MTimestampNS))
+//@     invariant mFpRows(res, metricData, _len, rangeindex + 1)
+//@     modifies mFp(res).Data, allocated
+//@   loop 4:
+//@     invariant metricsAcq(metrics, res) && len(mVal(res).Data) == _len + rangeindex + 1 && rangeindex + 1 <= len(metricData.MValue)
+//@     invariant mTypeRows(res, metricData, _len, len(metricData.MTimestampNS))
+//@     invariant mTsRows(res, metricData, _len, len(metricData.MTimestampNS))
+//@     invariant mFpRows(res, metricData, _len, len(metricData.MTimestampNS))
+//@     invariant mValRows(res, metricData, _len, rangeindex + 1)
+//@     modifies mVal(res).Data, allocated
+
+// tempo_traces: (trace_id, span_id, parent_id, name, timestamp_ns, duration_ns, service_name, payload_type, payload)
+// Row counts only (fixed-width columns count rows as buffer length / width).
+//@ iface (github.com/metrico/qryn/writer/service.IColPoolRes).Size()
+//@   modifies nothing
+//@ func (*tempoSamplesAcquirer).fromIFace
+//@   flag inline
+//@ func (*tempoSamplesAcquirer).toIFace
+//@   flag inline
+//@ func (*github.com/ClickHouse/ch-go/proto.ColStr).AppendBytes
+//@   flag inline
+//@ spec fn fixedCol(x service.IColPoolRes) *service.PooledColumn[*proto.ColFixedStr] = unbox(x, "*service.PooledColumn[*proto.ColFixedStr]")
+//@ spec fn strCol(x service.IColPoolRes) *service.PooledColumn[*proto.ColStr] = unbox(x, "*service.PooledColumn[*proto.ColStr]")
+//@ spec fn i64Col(x service.IColPoolRes) *service.PooledColumn[proto.ColInt64] = unbox(x, "*service.PooledColumn[proto.ColInt64]")
+//@ spec fn i8Col(x service.IColPoolRes) *service.PooledColumn[proto.ColInt8] = unbox(x, "*service.PooledColumn[proto.ColInt8]")
+//@ spec fn isFixed(x service.IColPoolRes, width int) bool = typeis(x, "*service.PooledColumn[*proto.ColFixedStr]") && fixedCol(x) != nil && !fresh(fixedCol(x)) && fixedCol(x).Data != nil && !fresh(fixedCol(x).Data) && fixedCol(x).Data.Size == width
+//@ spec fn isStr(x service.IColPoolRes) bool = typeis(x, "*service.PooledColumn[*proto.ColStr]") && strCol(x) != nil && !fresh(strCol(x)) && strCol(x).Data != nil && !fresh(strCol(x).Data)
+//@ spec fn isI64(x service.IColPoolRes) bool = typeis(x, "*service.PooledColumn[proto.ColInt64]") && i64Col(x) != nil && !fresh(i64Col(x))
+//@ spec fn isI8(x service.IColPoolRes) bool = typeis(x, "*service.PooledColumn[proto.ColInt8]") && i8Col(x) != nil && !fresh(i8Col(x))
+//@ spec fn tracesShaped(res []service.IColPoolRes) bool = len(res) == 9 && isFixed(res[0], 16) && isFixed(res[1], 8) && isStr(res[2]) && isStr(res[3]) && isI64(res[4]) && isI64(res[5]) && isStr(res[6]) && isI8(res[7]) && isStr(res[8])
+//@ spec fn tracesDistinct(res []service.IColPoolRes) bool = fixedCol(res[0]).Data != fixedCol(res[1]).Data && i64Col(res[4]) != i64Col(res[5]) && strCol(res[2]).Data != strCol(res[3]).Data && strCol(res[2]).Data != strCol(res[6]).Data && strCol(res[2]).Data != strCol(res[8]).Data && strCol(res[3]).Data != strCol(res[6]).Data && strCol(res[3]).Data != strCol(res[8]).Data && strCol(res[6]).Data != strCol(res[8]).Data
+//@ spec fn tracesRows(res []service.IColPoolRes, n int) bool = len(fixedCol(res[0]).Data.Buf) == 16 * n && len(fixedCol(res[1]).Data.Buf) == 8 * n && len(strCol(res[2]).Data.Pos) == n && len(strCol(res[3]).Data.Pos) == n && len(i64Col(res[4]).Data) == n && len(i64Col(res[5]).Data) == n && len(strCol(res[6]).Data.Pos) == n && len(i8Col(res[7]).Data) == n && len(strCol(res[8]).Data.Pos) == n
+//@ spec fn rectTracesReq(d *model.TempoSamples) bool = len(d.MTraceId) == len(d.MSpanId) && len(d.MSpanId) == len(d.MTimestampNs) && len(d.MTimestampNs) == len(d.MDurationNs) && len(d.MDurationNs) == len(d.MParentId) && len(d.MParentId) == len(d.MName) && len(d.MName) == len(d.MServiceName) && len(d.MServiceName) == len(d.MPayloadType) && len(d.MPayloadType) == len(d.MPayload)
+//@ spec fn idWidths(d *model.TempoSamples) bool = (forall k int :: 0 <= k && k < len(d.MTraceId) ==> len(d.MTraceId[k]) == 16) && (forall k int :: 0 <= k && k < len(d.MSpanId) ==> len(d.MSpanId[k]) == 8)
+
+//@ func NewTempoSamplesInsertService$2 [C02,C05]
+//@   requires shaped: tracesShaped(res) && tracesDistinct(res)
+//@   requires rectangular-batch: tracesRows(res, len(i64Col(res[4]).Data))
+//@   requires rectangular-request: typeis(v2, "*model.TempoSamples") ==> unbox(v2, "*model.TempoSamples") != nil && !fresh(unbox(v2, "*model.TempoSamples")) && rectTracesReq(unbox(v2, "*model.TempoSamples")) && idWidths(unbox(v2, "*model.TempoSamples"))
+//@   check rectangular: result2 == nil ==> tracesRows(res, old(len(i64Col(res[4]).Data)) + len(tempSamples.MTimestampNs))
+//@   check same-columns: result2 == nil ==> len(result1) == 9 && result1[0] == res[0] && result1[1] == res[1] && result1[2] == res[2] && result1[3] == res[3] && result1[4] == res[4] && result1[5] == res[5] && result1[6] == res[6] && result1[7] == res[7] && result1[8] == res[8]
+//@   loop 1:
+//@     invariant len(strCol(res[8]).Data.Pos) == old(len(i64Col(res[4]).Data)) + rangeindex + 1 && rangeindex + 1 <= len(tempSamples.MPayload)
+//@     modifies fields(strCol(res[8]).Data)
+
+// tempo_traces_attrs_gin: (date, key, val, trace_id, span_id, timestamp_ns, duration)
+//@ func (*tempoTagsAcquirer).fromIFace
+//@   flag inline
+//@ func (*tempoTagsAcquirer).toIFace
+//@   flag inline
+//@ spec fn dateCol(x service.IColPoolRes) *service.PooledColumn[proto.ColDate] = unbox(x, "*service.PooledColumn[proto.ColDate]")
+//@ spec fn isDate(x service.IColPoolRes) bool = typeis(x, "*service.PooledColumn[proto.ColDate]") && dateCol(x) != nil && !fresh(dateCol(x))
+//@ spec fn tagsShaped(res []service.IColPoolRes) bool = len(res) == 7 && isDate(res[0]) && isStr(res[1]) && isStr(res[2]) && isFixed(res[3], 16) && isFixed(res[4], 8) && isI64(res[5]) && isI64(res[6])
+//@ spec fn tagsDistinct(res []service.IColPoolRes) bool = fixedCol(res[3]).Data != fixedCol(res[4]).Data && i64Col(res[5]) != i64Col(res[6]) && strCol(res[1]).Data != strCol(res[2]).Data
+//@ spec fn tagsRows(res []service.IColPoolRes, n int) bool = len(dateCol(res[0]).Data) == n && len(strCol(res[1]).Data.Pos) == n && len(strCol(res[2]).Data.Pos) == n && len(fixedCol(res[3]).Data.Buf) == 16 * n && len(fixedCol(res[4]).Data.Buf) == 8 * n && len(i64Col(res[5]).Data) == n && len(i64Col(res[6]).Data) == n
+//@ spec fn rectTagsReq(d *model.TempoTag) bool = len(d.MTraceId) == len(d.MSpanId) && len(d.MSpanId) == len(d.MTimestampNs) && len(d.MTimestampNs) == len(d.MDurationNs) && len(d.MDurationNs) == len(d.MDate) && len(d.MDate) == len(d.MKey) && len(d.MKey) == len(d.MVal)
+//@ spec fn tagIdWidths(d *model.TempoTag) bool = (forall k int :: 0 <= k && k < len(d.MTraceId) ==> len(d.MTraceId[k]) == 16) && (forall k int :: 0 <= k && k < len(d.MSpanId) ==> len(d.MSpanId[k]) == 8)
+
+//@ func NewTempoTagsInsertService$2 [C02,C05]
+//@   requires shaped: tagsShaped(res) && tagsDistinct(res)
+//@   requires rectangular-batch: tagsRows(res, len(i64Col(res[5]).Data))
+//@   requires rectangular-request: typeis(v2, "*model.TempoTag") ==> unbox(v2, "*model.TempoTag") != nil && !fresh(unbox(v2, "*model.TempoTag")) && rectTagsReq(unbox(v2, "*model.TempoTag")) && tagIdWidths(unbox(v2, "*model.TempoTag"))
+//@   check rectangular: result2 == nil ==> tagsRows(res, old(len(i64Col(res[5]).Data)) + len(tempTags.MTimestampNs))
+//@   check same-columns: result2 == nil ==> len(result1) == 7 && result1[0] == res[0] && result1[1] == res[1] && result1[2] == res[2] && result1[3] == res[3] && result1[4] == res[4] && result1[5] == res[5] && result1[6] == res[6]
